@@ -143,7 +143,7 @@ ZOO_PARTNERS_QUICK = ZOO_KEY + ("grid3x3quad:id", "grid2x3tri:shear", "truncated
 
 
 def tasks(tier):
-    out = [{"phase": "selftest"}]
+    out = [{"phase": "selftest"}, {"phase": "notched"}]
     thorough = tier == "thorough"
     reps = _surf_reps()
     zoo_list = _surf_zoo(tier)
@@ -853,7 +853,9 @@ def _bfs_queries():
             if fname == "angle_defects":
                 qs += [(fname, dict(persistent=False, dense=d, zero_border=z)) for z in (False, True)]
             elif fname == "vertex_normals":
-                qs += [(fname, dict(persistent=False, dense=d, interpolation=w, custom=None)) for w in ("uniform", "area", "angle")]
+                # custom face normals must be honoured in every blackboard state (also when face normals are cached)
+                qs += [(fname, dict(persistent=False, dense=d, interpolation=w, custom=c)) for w in ("uniform", "area", "angle")
+                       for c in (None, "sparse")]
             else:
                 qs.append((fname, dict(persistent=False, dense=d)))
     return qs
@@ -1403,6 +1405,87 @@ def run_vol_labelled(task, rep: Report):
 
 
 # ================================================================================================ entry points
+# ------------------------------------------------------------------------------------- non-convex planar polygons
+# Face quantities (area, normal, barycentre, their sums and means) on planar simple polygons with reflex corners.
+# The textbook area is the shoelace / vector-area formula (exact rationals). The library defines the area of a
+# face with >= 5 corners as a triangle fan around its barycentre, so the inputs are restricted by an exact
+# predicate to polygons that are star-shaped with respect to their barycentre (others are counted and skipped);
+# every such polygon is listed from each of its corners (the listing must not matter) and glued to a triangle.
+NOTCHED = [
+    [(0, 0), (4, 0), (4, 4), (2, 3), (0, 4)],
+    [(0, 0), (6, 0), (6, 4), (3, 3), (0, 4)],
+    [(0, 0), (3, 1), (6, 0), (6, 5), (3, 4), (0, 5)],
+    [(0, 0), (8, 0), (8, 6), (6, 6), (4, 5), (2, 6), (0, 6)],
+    [(0, 0), (4, 0), (4, 4), (2, 1), (0, 4)],          # NOT star-shaped from its barycentre: must be filtered
+]
+
+
+def _star_from_barycentre(pts):
+    k = len(pts)
+    b = X.barycenter(pts)
+    vec2 = X.polygon_area_vector2(pts)
+    return all(X.dot(X.cross(X.sub(pts[i], b), X.sub(pts[(i + 1) % k], b)), vec2) > 0 for i in range(k))
+
+
+def run_notched(task, rep: Report):
+    import mouette as M
+    A = M.attributes
+    for ip, poly in enumerate(NOTCHED):
+        for aff in L.AFFINE:
+            base = L.affine([(x, y, 0) for x, y in poly], aff)
+            k = len(base)
+            pts_exact = [X.F(p) for p in base]
+            if not _star_from_barycentre(pts_exact):
+                rep.count("notched_filtered_not_star_shaped_from_barycentre")
+                continue
+            for rot in range(k):
+                order = [(rot + i) % k for i in range(k)]
+                for glue in (False, True):
+                    pts = list(base)
+                    faces = [tuple(order)]
+                    if glue:        # a triangle across the side (0,1) of the polygon, on the other side of it
+                        a, b = pts_exact[0], pts_exact[1]
+                        c = X.sub(X.add(a, b), pts_exact[2])
+                        pts = pts + [tuple(c)]
+                        faces.append((1, 0, k))
+                    m = F.build_surface([tuple(float(x) for x in q) for q in pts], faces)
+                    rep.traces += 1
+                    vec2 = X.polygon_area_vector2(pts_exact)
+                    want_area = L._sqrt_fr(X.sqnorm(vec2)) / 2
+                    icls = f"planar_nonconvex_{k}gon:star_shaped_from_barycentre"
+                    det = {"points": [[float(x) for x in q] for q in pts], "faces": [list(f) for f in faces]}
+                    o = call(lambda: A.face_area(m, persistent=False))
+                    rep.evaluations += 1
+                    if not o.ok:
+                        rep.violation("C07.face_area.definition", "attributes.face_area", exc_kind(o), icls, dict(det, msg=o.msg)); continue
+                    got = float(o.value[0])
+                    rep.outcome("notched_area", round(got, 6))
+                    if not X.close(got, want_area, 1e-9):
+                        rep.violation("C07.face_area.definition", "attributes.face_area", "mismatch:value", icls,
+                                      dict(det, got=got, want=float(want_area), listing_rotation=rot))
+                    o = call(lambda: A.face_normals(m, persistent=False))
+                    rep.evaluations += 1
+                    if o.ok:
+                        n = [float(x) for x in o.value[0]]
+                        nrm = float(L._sqrt_fr(X.sqnorm(vec2)))
+                        want_n = [float(x) / nrm for x in vec2]
+                        if not X.vclose(n, want_n, 1e-9, 1e-9):
+                            rep.violation("C07.face_normals.definition", "attributes.face_normals", "mismatch:value", icls,
+                                          dict(det, got=n, want=want_n, listing_rotation=rot))
+                    else:
+                        rep.violation("C07.face_normals.definition", "attributes.face_normals", exc_kind(o), icls, dict(det, msg=o.msg))
+                    o = call(lambda: A.total_area(m))
+                    rep.evaluations += 1
+                    tri = 0
+                    if glue:
+                        tri = L._sqrt_fr(X.sqnorm(X.polygon_area_vector2([X.F(pts[1]), X.F(pts[0]), X.F(pts[k])]))) / 2
+                    if o.ok and not X.close(float(o.value), float(want_area + tri), 1e-9):
+                        rep.violation("C07.total_area.definition", "attributes.total_area", "mismatch:value", icls,
+                                      dict(det, got=float(o.value), want=float(want_area + tri), listing_rotation=rot))
+                    rep.case(("notched", ip, aff, rot, glue))
+                    rep.flag("notched_polygon_checked")
+
+
 def run_task(task, rep: Report):
     ph = task["phase"]
     if ph == "selftest":
@@ -1432,6 +1515,8 @@ def run_task(task, rep: Report):
         run_labelled(task, rep)
     elif ph == "vol_labelled":
         run_vol_labelled(task, rep)
+    elif ph == "notched":
+        run_notched(task, rep)
     else:
         raise ValueError(ph)
 
